@@ -92,6 +92,11 @@ def string_literal(text: str, style: int = 0) -> str:
 
 def value_text(v: typing.Any, style: int = 0) -> str:
     """v: ["rat", p, q] | ["str", s] | ["bool", b] | ["set"]"""
+    if v[0] == "rat" and style >= 64:
+        # the same value reached through real literals with exponents of thousands of digits: nothing is ever rounded or limited by a
+        # machine format on the way (0e5000 is zero, 1e-5000 is a perfectly good tiny rational), only the final value matters
+        inner = value_text(v, style % 64)
+        return ["%s + 0e5000", "(%s) * 1e4400 / 1e4400", "(%s) + 1e-5000 - 1e-5000"][(style // 64 - 1) % 3] % inner
     if v[0] == "rat" and style >= 8:
         # the same exact rational written as an expression (what is stored is the value of the expression, never a rounding of it)
         p, q = v[1], v[2]
@@ -301,7 +306,7 @@ def _random_cases() -> st.SearchStrategy:
             lambda v: {"type": spec, "value": v}
         )
 
-    return st.sampled_from(all_types()).flatmap(with_value).flatmap(lambda c: st.integers(0, 63).map(lambda s: dict(c, style=s)))
+    return st.sampled_from(all_types()).flatmap(with_value).flatmap(lambda c: st.one_of(st.integers(0, 63), st.integers(0, 63), st.integers(0, 63), st.integers(64, 255)).map(lambda s: dict(c, style=s)))
 
 
 # ---------------------------------------------------------------------------------------------------------------------
